@@ -295,7 +295,7 @@ def check(run, F, tier):
     # ------------------------------------------------------------------ R4
     r4 = run.rule("C03-R4", "field order on the wire (by field type) equals the specification's variable header / payload order", floor=29)
     lay = json.load(open(os.path.join(VERIF, "spec", "layout.json")))
-    ps = serial.pairs(F)
+    ps = serial.pairs(F, both=False)
     for path, (ver, kind) in sorted(kinds.items()):
         impl = [k for k in ps if k.split("<")[0] == path]
         key = "%s::%s" % (ver, kind)
